@@ -98,7 +98,8 @@ Theorem C04_APEv2Data_fuel : forall bytes,
 Proof. reflexivity. Qed.
 Print Assumptions C04_APEv2Data_fuel.
 
-(* ---- 7. ID3: ID3Header.__init__ (no loop) ---- *)
+(* ---- 7. ID3: ID3Header.__init__ (one loop: the de-unsynchronised reading of a v2.2/v2.3 extended header,
+   _read_unsynched; what is missing at least halves per round, the model's 33 rounds are never exhausted) ---- *)
 Theorem C04_ID3Header_total : forall bytes, c04_input bytes ->
   match id3header_load bytes with Ok _ => True | Raise e => e = EMutagen end.
 Proof. exact id3header_total. Qed.
@@ -215,6 +216,10 @@ Proof. vm_compute. reflexivity. Qed.
 Example C04_ID3Header_ex_ok : id3header_load [73;68;51; 4;0; 0; 0;0;2;1; 9;9] = Ok [4; 0; 0; 267; -1; 10].
 Proof. vm_compute. reflexivity. Qed.
 Example C04_ID3Header_ex_truncated : id3header_load [73;68;51; 4;0; 0; 0;0;2] = Raise EMutagen.
+Proof. vm_compute. reflexivity. Qed.
+(* v2.3, unsynchronisation + extended header whose CRC 8A FF F4 F8 is stuffed (FF 00): 10 decoded bytes, 11 consumed *)
+Example C04_ID3Header_ex_stuffed_ext :
+  id3header_load [73;68;51; 3;0; 192; 0;0;1;6; 0;0;0;10; 128;0;0;0;0;0;138;255;0;244;248; 77;67;68;73] = Ok [3; 0; 192; 144; 10; 25].
 Proof. vm_compute. reflexivity. Qed.
 Example C04_ID3Header_ex_short_ext : id3header_load [73;68;51; 4;0; 64; 0;0;2;1; 0;0;0;12; 1] = Raise EMutagen.
 Proof. vm_compute. reflexivity. Qed.
